@@ -124,8 +124,11 @@ PolViol(r) ==
   ELSE IF \E i \in 1..Len(r.rows) : LET want == PolicyAns(r.rows[i].p, r.rows[i].c) IN want >= 0 /\ r.rows[i].a # want
        THEN {<<"C09", "builtin_policy_arithmetic">>} ELSE {}
 
+\* a case that did not finish within a minute (C06: no input makes the readers loop forever; C10 for the writers)
+StuckViol(r) == IF r.writing THEN {<<"C10", "write_function_hangs">>} ELSE {<<"C06", "hang">>}
+
 Next == /\ l <= Len(Rec)
-        /\ LET v == IF Rec[l].ev = "giant" THEN GiantViol(Rec[l]) ELSE IF Rec[l].ev = "longw" THEN LongWriteViol(Rec[l]) ELSE IF Rec[l].ev = "poltab" THEN PolViol(Rec[l]) ELSE Viol(Rec[l]) IN
+        /\ LET v == IF Rec[l].ev = "stuck" THEN StuckViol(Rec[l]) ELSE IF Rec[l].ev = "giant" THEN GiantViol(Rec[l]) ELSE IF Rec[l].ev = "longw" THEN LongWriteViol(Rec[l]) ELSE IF Rec[l].ev = "poltab" THEN PolViol(Rec[l]) ELSE Viol(Rec[l]) IN
              v # {} => PrintT(<<"MISMATCH", ToJson([kind |-> "long", line |-> l, run |-> l, props |-> {x[1] : x \in v}, why |-> {x[2] : x \in v},
                                                    extra |-> [fmt |-> Rec[l].fmt, cap |-> Rec[l].cap, ev |-> Rec[l].ev]])>>)
         /\ l' = l + 1
